@@ -1,0 +1,42 @@
+//go:build verif
+
+// Contracts for the deductive verification in /verif (govc). This file contains
+// comments only; it is compiled only with -tags verif and declares nothing.
+
+package tls
+
+// ---------------------------------------------------------------- common.go: LRU session cache
+//
+// Abstract view of a cache c: the sequence of (key, state) pairs held by the entries of
+// the list c.q, most recently used first. Representation invariant: the map c.m and the
+// list c.q describe the same set of entries.
+
+//@ pred ent(e) = unboxed(e.Value, *lruSessionCacheEntry)
+//@ pred lruInv(c) = c != nil && c.m != nil && listwf(c.q) && sep(c.q, c) && c.capacity >= 1 && len(c.m) == list_len(c.q) && list_len(c.q) <= c.capacity && forall(i, 0, list_len(c.q), typeis(list_at(c.q, i).Value, *lruSessionCacheEntry) && ent(list_at(c.q, i)) != nil && allocated(ent(list_at(c.q, i))) && sep(ent(list_at(c.q, i)), c) && has(c.m, ent(list_at(c.q, i)).sessionKey) && c.m[ent(list_at(c.q, i)).sessionKey] == list_at(c.q, i)) && forallv(k, string, has(c.m, k) ==> list_pos(c.q, c.m[k]) >= 0 && ent(c.m[k]).sessionKey == k) && forall(i, 0, list_len(c.q), forall(j, 0, list_len(c.q), ent(list_at(c.q, i)) == ent(list_at(c.q, j)) ==> i == j))
+
+//@ func (*lruSessionCache).Get
+//@   requires lruInv(c)
+//@   ensures  lruInv(c)
+//@   ensures  old(has(c.m, sessionKey)) ==> result1 && result0 == old(ent(c.m[sessionKey]).state) && list_at(c.q, 0) == old(c.m[sessionKey])
+//@   ensures  !old(has(c.m, sessionKey)) ==> !result1 && result0 == nil && forall(i, 0, list_len(c.q), list_at(c.q, i) == old(list_at(c.q, i)))
+//@   ensures  list_len(c.q) == old(list_len(c.q))
+//@   modifies list(c.q)
+//@   terminates
+
+//@ func (*lruSessionCache).Put
+//@   uses perreturn
+//@   requires lruInv(c)
+//@   ensures  [inv] lruInv(c)
+//@   ensures  [update] old(has(c.m, sessionKey)) && cs != nil ==> has(c.m, sessionKey) && ent(c.m[sessionKey]).state == cs && list_at(c.q, 0) == c.m[sessionKey] && c.m[sessionKey] == old(c.m[sessionKey]) && list_len(c.q) == old(list_len(c.q))
+//@   ensures  [delete] old(has(c.m, sessionKey)) && cs == nil ==> !has(c.m, sessionKey) && list_len(c.q) == old(list_len(c.q)) - 1 && list_pos(c.q, old(c.m[sessionKey])) == -1
+//@   ensures  [nilabsent] !old(has(c.m, sessionKey)) && cs == nil ==> list_len(c.q) == old(list_len(c.q)) && !has(c.m, sessionKey) && forall(i, 0, list_len(c.q), list_at(c.q, i) == old(list_at(c.q, i)))
+//@   ensures  [insert] !old(has(c.m, sessionKey)) && cs != nil && old(list_len(c.q)) < c.capacity ==> has(c.m, sessionKey) && ent(c.m[sessionKey]).state == cs && list_at(c.q, 0) == c.m[sessionKey] && list_len(c.q) == old(list_len(c.q)) + 1
+//@   ensures  [evict] !old(has(c.m, sessionKey)) && cs != nil && old(list_len(c.q)) >= c.capacity ==> has(c.m, sessionKey) && ent(c.m[sessionKey]).state == cs && list_at(c.q, 0) == c.m[sessionKey] && list_len(c.q) == old(list_len(c.q)) && list_at(c.q, 0) == old(list_at(c.q, list_len(c.q) - 1))
+//@   modifies all
+//@   terminates
+
+//@ func NewLRUClientSessionCache
+//@   ensures typeis(result, *lruSessionCache) && lruInv(unboxed(result, *lruSessionCache))
+//@   ensures list_len(unboxed(result, *lruSessionCache).q) == 0 && fresh(unboxed(result, *lruSessionCache))
+//@   ensures unboxed(result, *lruSessionCache).capacity == ite(capacity < 1, 64, capacity)
+//@   terminates
